@@ -149,6 +149,13 @@ class Seq:
         self.ln, self.elem, self.label = ln, elem, label
 
 
+class FiltSeq:
+    """[x for x in <Seq> if P(x)]: the sub-sequence of a symbolic sequence selected by a predicate on positions"""
+
+    def __init__(self, seq, pred):
+        self.seq, self.pred = seq, pred       # pred(j: z3 Int) -> z3 Bool
+
+
 class Opt:
     """'-1 or list' as used by _parents/_childs: (isnone: z3 Bool, seq: Seq)"""
 
